@@ -37,11 +37,14 @@ RULE = ("Hypothesis draws histories (a fixed 8-operation prefix that fills the p
         "dicts, from_native / substitute / validate with caller-owned values (plain, holding an unconvertible leaf, or "
         "instances of dict subclasses), mutation and repair of those containers after use, +, + with an empty operand, "
         "|, %, ~ (seeded), represent, make_required, indexing, iteration, ==, mutation of generated values, construction "
-        "of visitors of one's own with non-default options, and repetition of logged operations. Oracles after every "
+        "of visitors of one's own with non-default options, substitution of `key: ...` placeholders for drawn keys of a pooled "
+        "dict schema, generations that fail below 0-6 containers, declarations of patterns with counts above the repeat limit, "
+        "and repetition of logged operations. Oracles after every "
         "step: snapshot of every pooled schema (independent canon, repr, verdicts on 16 probe values) unchanged; every "
         "caller-owned container equal to its snapshot; a repeated operation gives the same outcome; and the same "
         "operation on equal inputs, evaluated by a forked child of a history-free server process (pbt/pristine.py), "
-        "gives the same outcome. distinct = canonical JSON of the history; non-trivial = the history contains a "
+        "gives the same outcome; after the last step a fixed panel of seeded generations (pbt/panel.py) gives what it gives in a "
+        "process without history. distinct = canonical JSON of the history; non-trivial = the history contains a "
         "caller-container mutation after use, or a raising refinement, followed by >=1 further operation")
 ASSUMPTIONS = ["sequential histories only (d42 has no threads and the property does not quantify over interleavings)",
                "observable behaviour of a schema = independent canon + repr + verdicts on a fixed probe set"]
